@@ -83,7 +83,7 @@ func (p *Prog) contractsFor(prop string) []string {
 		if c.Extern || c.Trusted || strings.HasPrefix(k, "iface:") || strings.HasPrefix(k, "functype:") {
 			continue
 		}
-		if prop == "" || hasProp(c.Props, prop) || c.clauseHasProp(prop) {
+		if prop == "" || hasProp(c.Props, prop) || c.clauseHasProp(prop) || (c.Key == "init" && p.specs.tableHasProp(c.PkgPath, prop)) {
 			keys = append(keys, k)
 		}
 	}
@@ -128,7 +128,7 @@ type checkOutcome struct {
 }
 
 func runCheck(p *Prog, prop, tier string, timeout, workers int, verbose bool) int {
-	t0 := time.Now()
+	t0 := processStart
 	if prop == "" {
 		fmt.Fprintln(os.Stderr, "check: -prop required")
 		return 2
@@ -285,6 +285,19 @@ func runCheck(p *Prog, prop, tier string, timeout, workers int, verbose bool) in
 		exit = 1
 	}
 
+	if os.Getenv("GOVC_WRITE_BASELINE") == "1" && exit == 0 {
+		var names []string
+		for _, o := range out.Obls {
+			if o.ok() {
+				names = append(names, o.Name)
+			}
+		}
+		sort.Strings(names)
+		base.Props[prop] = names
+		os.MkdirAll(filepath.Join(verifDir, "baseline"), 0o755)
+		bd, _ := json.MarshalIndent(base, "", " ")
+		os.WriteFile(filepath.Join(verifDir, "baseline", "obligations.json"), append(bd, '\n'), 0o644)
+	}
 	// evidence
 	var fns []string
 	assume := map[string]bool{}
@@ -401,3 +414,14 @@ func trimModelInputs(m string) string {
 	}
 	return m
 }
+
+func (sp *Specs) tableHasProp(pkg, prop string) bool {
+	for _, a := range append(append([]Axiom{}, sp.GlobalInv...), sp.InitTable...) {
+		if a.PkgPath == pkg && hasProp(a.C.Props, prop) {
+			return true
+		}
+	}
+	return false
+}
+
+var processStart = time.Now()
